@@ -37,7 +37,7 @@ BIGNUM = 10 ** 400      # a JSON number no double can hold (json.loads reads it 
 VALS = [1, "s", None, True, {"a": {"b": 1}}, [1, [2]], 1.5, "", [], {}, 0, False, BIGNUM, -BIGNUM, {"a": BIGNUM, "b": 1}]
 DOCS = [{"a": list(VALS), "b": "str", "c": None, "1": 1, "": 0, "é": [1]}, list(VALS) + [{"a": list(VALS)}], 5, None, True, 1.5, "plain text", {"a": "s"}, [], MIXED, {"a": [], "b": [[], [1]]}]
 PDOCS = [{"a": [1, 2], "b": {"c": 1}}, [1], 5, "s", None, {"a": {"0": 1}}, {}]
-BASES = ["", "/a/0", "/a", "/0/1/2", "/\u00b2", "/a/\u0662"]      # (a superscript two and an Arabic-Indic two: digits to the host, not indices)
+BASES = ["", "/a/0", "/a", "/0/1/2", "/\u00b2", "/a/\u0662", "/a/-5"]      # (a superscript two and an Arabic-Indic two: digits to the host, not indices)
 
 
 class _TO(BaseException):
